@@ -1441,6 +1441,19 @@ class Sym:
                 for s2 in self.assign(s, exprs[0], vals[1]):
                     out.append((s2, old))
             return out
+        if has_obj and callee.get('name') in ('operator++', 'operator--') and callee.get('repo') is False \
+                and strip_casts(e['obj']).get('k') == 'ref' and strip_casts(e['obj']).get('kind') == 'local':
+            # stepping a standard iterator held in a local variable: the variable now designates the next position
+            out = []
+            for s, vals in self.ev_list([e['obj']], st):
+                if s.throw is not None:
+                    out.append((s, None))
+                    continue
+                old = vals[0]
+                new = ('call', callee['id'].split('(')[0] + '()', old, ())
+                for s2 in self.assign(s, e['obj'], new):
+                    out.append((s2, old if exprs else new))
+            return out
         if has_obj:
             exprs = [e['obj']] + exprs
         out = []
@@ -1757,6 +1770,26 @@ class Sym:
                 if m:
                     idx = 0 if name in ('begin', 'cbegin') else int(m.group(1))
                     return [(st, ('addr', ('index', args[0], ('k', idx, 'int'))))]
+            if name in ('fill', 'fill_n') and recv is None and len(args) == 3 and callee['id'].startswith(('std::fill<', 'std::fill_n<')):
+                # std::fill(&a[i], &a[n], v) / std::fill_n(&a[i], k, v): every element of the range takes the value
+                def pos_(t):
+                    if isinstance(t, tuple) and t[0] == 'addr' and isinstance(t[1], tuple) and t[1][0] == 'index' and t[1][2][0] == 'k':
+                        return t[1][1], t[1][2][1]
+                    return None
+                a_ = pos_(args[0])
+                if name == 'fill':
+                    b_ = pos_(args[1])
+                    hi = b_[1] if (a_ and b_ and a_[0] == b_[0]) else None
+                    val_ = args[2]
+                else:
+                    hi = a_[1] + args[1][1] if (a_ and isinstance(args[1], tuple) and args[1][0] == 'k') else None
+                    val_ = args[2]
+                if a_ is not None and hi is not None and 0 <= hi - a_[1] <= 64:
+                    for k_ in range(a_[1], hi):
+                        lv = ('index', a_[0], ('k', k_, 'int'))
+                        st.effects.append(('write', lv, val_))
+                        st.symstore[lv] = val_
+                    return [(st, args[1] if name == 'fill' else ('addr', ('index', a_[0], ('k', hi, 'int'))))]
             if name == 'find' and recv is None and len(args) == 3 and callee['id'].startswith('std::find<'):
                 r = self.array_find(args, st)
                 if r is not None:
